@@ -206,15 +206,41 @@ impl<'a> Judge<'a> {
             let mut begin = 0u64;
             let mut late_old = 0usize;
             let mut last_send: HashMap<Option<usize>, u64> = HashMap::new();
+            let mut parked_at_exit: HashMap<Option<usize>, usize> = HashMap::new();
+            let mut cur_op: HashMap<Option<usize>, usize> = HashMap::new();
             for ev in &self.ex.log {
                 match &ev.ev {
                     Ev::SendCommand { .. } => {
                         last_send.insert(ev.actor, ev.seq);
                     }
+                    // commands still parked when a thread exits are pushed by its queue's
+                    // destructor (no hook there)
+                    Ev::Note(n) if n.starts_with("parked-at-exit") => {
+                        let k = n.split(':').nth(1).and_then(|x| x.parse::<usize>().ok()).unwrap_or(0);
+                        parked_at_exit.insert(ev.actor, k);
+                    }
+                    Ev::ActorDone if passes > 0 => {
+                        late_old += parked_at_exit.get(&ev.actor).copied().unwrap_or(0);
+                    }
+                    Ev::OpBegin { op } => {
+                        cur_op.insert(ev.actor, *op);
+                    }
+                    Ev::OpEnd { .. } => {
+                        cur_op.remove(&ev.actor);
+                    }
                     Ev::DrainBegin => {
                         if passes == 0 {
                             begin = ev.seq;
-                            late_old = 0;
+                            // a bulk fill in progress pushes without logging: one of its commands
+                            // may have been stamped before the cycle began
+                            late_old = cur_op
+                                .iter()
+                                .filter(|(a, op)| {
+                                    a.and_then(|a| self.program.actors.get(a)).and_then(|act| act.ops.get(**op)).map_or(false, |o| {
+                                        matches!(o, Op::Fill { .. } | Op::FillScopes { .. } | Op::FillLocalSpans { .. } | Op::Unfill)
+                                    })
+                                })
+                                .count();
                         }
                         passes += 1;
                     }
